@@ -79,6 +79,33 @@ pub fn c17(g: &mut G) {
     if g.thorough {
         g.emit("!levbig 400 2".to_string());
     }
+    // the caller's limit applies below, at and above the default (queries with ~10^2 … >10^4 states)
+    for (q, d) in [("foo", 1u32), ("é☃😀", 2), ("levenshtein", 2), ("😀😁𝄞☃☄éêa😀é", 3), ("levenshtein automaton", 3)] {
+        g.emit(format!("!levlimit {} {}", hex(q.as_bytes()), d));
+    }
+    // searches under bounds that leave the FST in the middle of a key or of a character
+    {
+        let mut bounds: Vec<Vec<u8>> = vec![vec![0xc3], vec![0xc3, 0xa8], vec![0xe2, 0x98], vec![0xf0, 0x9f, 0x98], b"a\xc3".to_vec(), vec![0x61, 0xc3], vec![0x60], vec![0x7b], vec![0xff]];
+        for s2 in strings_over(&ext, 2).into_iter().take(if g.thorough { 400 } else { 60 }) {
+            let mut b = s2.into_bytes();
+            bounds.push(b.clone());
+            b.pop();
+            bounds.push(b.clone());
+            b.push(0x80);
+            bounds.push(b);
+        }
+        for (qi, q) in qs.iter().enumerate() {
+            for d in 0..=2u32 {
+                for j in 0..(if g.thorough { 12 } else { 3 }) {
+                    let lo = &bounds[(qi * 7 + d as usize * 3 + j * 11) % bounds.len()];
+                    let hi = &bounds[(qi * 5 + d as usize + j * 13 + 1) % bounds.len()];
+                    let (lk, hk) = (["ge", "gt"][(qi + j) % 2], ["le", "lt"][(qi + j + d as usize) % 2]);
+                    g.emit(format!("stream lev:{}:{} {}:{} -", hex(q.as_bytes()), d, lk, hex(lo)));
+                    g.emit(format!("stream lev:{}:{} {}:{} {}:{}", hex(q.as_bytes()), d, lk, hex(lo), hk, hex(hi)));
+                }
+            }
+        }
+    }
     // state limits from 1 upward
     for q in ["", "a", "é", "aé", "é☃😀", "foo"] {
         for d in 0..=2u32 {
@@ -172,6 +199,28 @@ pub fn c18(g: &mut G) {
         }
         g.emit(format!("aut {} {}", sh, hex(b"ab\x00\xffz")));
     }
+    // what the hints are for: searches of the built-ins and their compositions over a full
+    // small FST, unbounded and under lower bounds of 1..3 bytes (on and off the key paths)
+    let keys: Vec<Vec<u8>> = universe(b"ab", 4);
+    let kv: Kv = keys.iter().enumerate().map(|(i, k)| (k.clone(), i as u64 + 1)).collect();
+    g.emit(build_line("map", 0, "default", "seq", &ins_calls(&kv)));
+    let mut bnds: Vec<Vec<u8>> = universe(b"ab", 3).into_iter().filter(|k| !k.is_empty()).collect();
+    bnds.extend(vec![b"ac".to_vec(), b"a\x00".to_vec(), b"bab\xff".to_vec(), b"abab".to_vec(), b"`".to_vec(), b"c".to_vec()]);
+    let nsearch = if g.thorough { specs.len().min(6000) } else { specs.len().min(leaves.len() * 5 + 200) };
+    for (i, s) in specs.iter().take(nsearch).enumerate() {
+        let sh = s.show();
+        g.emit(format!("stream {} - -", sh));
+        for j in 0..(if i < leaves.len() * 5 { 4 } else { 2 }) {
+            let lo = &bnds[(i * 5 + j * 7) % bnds.len()];
+            let hi = &bnds[(i * 3 + j * 11 + 1) % bnds.len()];
+            let lk = ["ge", "gt"][(i + j) % 2];
+            if j % 2 == 0 {
+                g.emit(format!("stream {} {}:{} -", sh, lk, hex(lo)));
+            } else {
+                g.emit(format!("stream {} {}:{} {}:{}", sh, lk, hex(lo), ["le", "lt"][i % 2], hex(hi)));
+            }
+        }
+    }
 }
 
 pub fn c19(g: &mut G) {
@@ -212,6 +261,32 @@ pub fn c19(g: &mut G) {
         for s in 0..seeds {
             let seed = if s == 0 { 0 } else { 1 + g.rng.below(1000) };
             g.emit(format!("merge {} {} {} {} {} {}", mode, batch, fd, threads, seed, rs));
+        }
+    }
+    // lines whose content ends in CR (a line ends at LF or CRLF: exactly one CR belongs to the
+    // terminator), and the same input file listed several times (it counts every time)
+    {
+        let crkeys: Vec<&[u8]> = vec![b"foo\r", b"foo", b"baz\r", b"\r", b"a\r\r", b"a\r", b"a", b"k1", b"zz\r", b"m"];
+        for i in 0..(if g.thorough { 200 } else { 30 }) {
+            let nrows = 2 + g.rng.below(9) as usize;
+            let rows: Vec<String> = (0..nrows).map(|_| format!("{}:0", hex(*g.rng.pick(&crkeys)))).collect();
+            let batch = 1 + g.rng.below(4);
+            let fd = 2 + g.rng.below(3);
+            let threads = 1 + g.rng.below(3);
+            g.emit(format!("merge set {} {} {} {} {} {}", batch, fd, threads, i % 3, rows.join(","), ["one,keepnl", "one,nonl"][i % 2]));
+        }
+        for i in 0..(if g.thorough { 240 } else { 40 }) {
+            let mode = modes[i % 4];
+            let nrows = 2 + g.rng.below(8) as usize;
+            let rows: Vec<String> = (0..nrows)
+                .map(|_| format!("{}:{}", hex(g.rng.pick(&keyu).as_bytes()), if mode == "set" { 0 } else { 1 + g.rng.below(50) }))
+                .collect();
+            let k = 1 + g.rng.below(nrows as u64 - 1);
+            let n = 1 + g.rng.below(3);
+            let batch = 1 + g.rng.below(5);
+            let fd = 2 + g.rng.below(3);
+            let threads = 1 + g.rng.below(3);
+            g.emit(format!("merge {} {} {} {} {} {} rep:{}:{}", mode, batch, fd, threads, i % 2, rows.join(","), k, n));
         }
     }
     // many small batches over several workers: generations long enough for the order in
